@@ -218,8 +218,8 @@ PROPS = {
                    "the call must succeed with exactly one succeeding primary's value at the virtual time of the earliest success, consult fallbacks only on unavailability-class failures of all primaries, and return at the cancellation instant when nodes respect their context.",
         level_note="Mixed error classes assert nothing about fallback use (the implementation keys on the last error); a hung primary with no succeeding primary legitimately blocks; distinct latencies make completion order well defined.",
         runs={
-            "quick": [dict(test="TestC19Multi", checks=15000, shards=4), dict(test="TestC19Sequence", checks=4000, shards=2)],
-            "thorough": [dict(test="TestC19Multi", checks=300000, shards=12, timeout=3000), dict(test="TestC19Sequence", checks=150000, shards=4, timeout=3000)],
+            "quick": [dict(test="TestC19Multi", checks=15000, shards=4), dict(test="TestC19Sequence", checks=4000, shards=2), dict(test="TestC19LazyCancel", checks=12, shrinktime="20s")],
+            "thorough": [dict(test="TestC19Multi", checks=300000, shards=12, timeout=3000), dict(test="TestC19Sequence", checks=150000, shards=4, timeout=3000), dict(test="TestC19LazyCancel", checks=150, timeout=3000)],
         },
     ),
     "C12": dict(
